@@ -1,0 +1,61 @@
+//go:build verif
+
+// Contracts for the response decorators of internal/http_api (round 4): the link between what a handler RETURNS
+// (the (data, error) pairs the handler contracts of nsqd / nsqlookupd / nsqadmin talk about) and what the client SEES
+// (the status line). Comment-only file, checked by /verif/cmd/nsqvc.
+
+package http_api
+
+// Function-type contract of APIHandler: every handler returns nil or an http_api.Err (V1 / PlainText / Log type-assert it;
+// anything else would be a panic = 500 "INTERNAL_ERROR" through LogPanicHandler). ASSUMED at the dynamic call `f(w, req, ps)`
+// inside the decorators; an OBLIGATION (kind functype) at every return of every repository function of this signature that
+// is under contract (the others are listed in the evidence).
+// hCalls / hLastErr / hLastData: number of handler invocations through the type and the most recent result.
+//@ ghost hCalls int
+//@ ghost hLastErr error
+//@ ghost hLastData interface{}
+//@ ghostgroup hCalls, hLastErr, hLastData
+//@ extern functype:github.com/nsqio/nsq/internal/http_api.APIHandler(w, req, ps) (data, err)
+//@   ensures[error-is-an-http-error] err != nil ==> dyntype(err) == typetag("Err")
+//@   modifies *
+//@   onreturn hCalls := hCalls + 1
+//@   onreturn hLastErr := err
+//@   onreturn hLastData := data
+
+// V1: the handler runs exactly once; an error is answered with ITS code (never rewritten), success with 200 (500 only if
+// the payload cannot be marshalled); exactly one status line goes to w after the handler returned.
+//@ func V1$1(w http.ResponseWriter, req *http.Request, ps httprouter.Params) (interface{}, error)
+//@   props C10 C14 C15 C17 C18
+//@   requires w != nil
+//@   ensures[handler-called-once] hCalls == old(hCalls) + 1
+//   (an Err whose Code is 200 would be treated like a success payload by RespondV1: 200, or 500 if it cannot be marshalled)
+//@   ensures[error-status] hLastErr != nil && unbox(hLastErr, "Err").Code != 200 ==> jLastStatus == unbox(hLastErr, "Err").Code && jLastStatusW == w
+//@   ensures[ok-status] hLastErr == nil || unbox(hLastErr, "Err").Code == 200 ==> (jLastStatus == 200 || jLastStatus == 500) && jLastStatusW == w
+//@   ensures[returns-nothing] result0 == nil && result1 == nil
+
+// PlainText: the same for text endpoints (/ping, /info ...): the error's code, else 200.
+//@ func PlainText$1(w http.ResponseWriter, req *http.Request, ps httprouter.Params) (interface{}, error)
+//@   props C10 C14 C15 C17 C18
+//@   requires w != nil
+//@   maypanic
+//@   ensures[handler-called-once] hCalls == old(hCalls) + 1
+//@   ensures[error-status] hLastErr != nil ==> jLastStatus == unbox(hLastErr, "Err").Code && jLastStatusW == w
+//@   ensures[ok-status] hLastErr == nil ==> jLastStatus == 200 && jLastStatusW == w
+//@   ensures[returns-nothing] result0 == nil && result1 == nil
+
+// Log functions (lg.AppLogFunc values: (*NSQD).logf, (*NSQLookupd).logf, (*NSQAdmin).logf, test loggers) write to the configured logger
+// and touch no modelled state. ASSUMED for every value of the type (frames of implementations are not re-checked against it).
+//@ extern functype:github.com/nsqio/nsq/internal/lg.AppLogFunc(lvl, f, args)
+//@   modifies
+
+// Decorate: the router entry runs the decorated handler exactly once with the request it was given.
+//@ func Decorate$1(w http.ResponseWriter, req *http.Request, ps httprouter.Params)
+//@   props C10 C14 C15 C17 C18
+//@   ensures[decorated-handler-called-once] hCalls == old(hCalls) + 1
+
+// Log: a pass-through decorator - the inner handler runs once and ITS result is returned unchanged (status logged, nothing rewritten).
+//@ func Log$1$1(w http.ResponseWriter, req *http.Request, ps httprouter.Params) (interface{}, error)
+//@   props C10 C14 C15 C17 C18
+//@   requires req != nil && req.URL != nil
+//@   ensures[handler-called-once] hCalls == old(hCalls) + 1
+//@   ensures[passes-through] result0 == hLastData && result1 == hLastErr
